@@ -56,12 +56,138 @@ fn to_primitive_number(value: &Value) -> Option<f64> {
     }
 }
 
-pub fn str_to_number<S: AsRef<str>>(string: S) -> Option<f64> {
-    let s = string.as_ref();
-    if s == "" {
-        Some(0.0)
+/// WhiteSpace and LineTerminator code points of ECMA-262 (StrWhiteSpaceChar)
+fn is_js_whitespace(c: char) -> bool {
+    match c {
+        '\u{0009}'..='\u{000D}'
+        | '\u{0020}'
+        | '\u{00A0}'
+        | '\u{1680}'
+        | '\u{2000}'..='\u{200A}'
+        | '\u{2028}'
+        | '\u{2029}'
+        | '\u{202F}'
+        | '\u{205F}'
+        | '\u{3000}'
+        | '\u{FEFF}' => true,
+        _ => false,
+    }
+}
+
+/// Length of the longest StrUnsignedDecimalLiteral other than `Infinity` at
+/// the start of `s`: digits with an optional fraction, or a fraction alone,
+/// followed by an exponent if the exponent is complete. Zero if there is none.
+fn scan_unsigned_decimal(s: &[u8]) -> usize {
+    let digits = |from: usize| {
+        s.iter()
+            .skip(from)
+            .take_while(|b| b.is_ascii_digit())
+            .count()
+    };
+    let int_len = digits(0);
+    let mut end = int_len;
+    let mut frac_len = 0;
+    if s.get(end) == Some(&b'.') {
+        frac_len = digits(end + 1);
+        if int_len > 0 || frac_len > 0 {
+            end += 1 + frac_len;
+        }
+    }
+    if int_len == 0 && frac_len == 0 {
+        return 0;
+    }
+    if let Some(b'e') | Some(b'E') = s.get(end) {
+        let mut exp_start = end + 1;
+        if let Some(b'+') | Some(b'-') = s.get(exp_start) {
+            exp_start += 1;
+        }
+        let exp_len = digits(exp_start);
+        if exp_len > 0 {
+            end = exp_start + exp_len;
+        }
+    }
+    end
+}
+
+/// Parse the longest StrDecimalLiteral (optional sign, then `Infinity` or a
+/// decimal literal) at the start of `s`, returning its value and its length.
+fn parse_decimal_prefix(s: &str) -> Option<(f64, usize)> {
+    let bytes = s.as_bytes();
+    let (negative, sign_len) = match bytes.first() {
+        Some(b'-') => (true, 1),
+        Some(b'+') => (false, 1),
+        _ => (false, 0),
+    };
+    let unsigned = &bytes[sign_len..];
+    let (magnitude, len) = if unsigned.starts_with(b"Infinity") {
+        (f64::INFINITY, 8)
     } else {
-        f64::from_str(s).ok()
+        let len = scan_unsigned_decimal(unsigned);
+        if len == 0 {
+            return None;
+        }
+        // The literal is ASCII, and every such literal is accepted by
+        // Rust's (correctly rounding) float parser.
+        (f64::from_str(&s[sign_len..sign_len + len]).ok()?, len)
+    };
+    Some((if negative { -magnitude } else { magnitude }, sign_len + len))
+}
+
+/// Value of a non-empty string of digits in radix 2, 8 or 16, correctly
+/// rounded, or None if some character is not a digit of that radix.
+fn radix_digits_to_number(digits: &str, radix: u32) -> Option<f64> {
+    if digits == "" {
+        return None;
+    }
+    let bits_per_digit = radix.trailing_zeros();
+    // The 64 leading significant bits, the number of bits after them, and
+    // whether any of those later bits is set.
+    let mut leading: u64 = 0;
+    let mut dropped: u32 = 0;
+    let mut sticky = false;
+    for c in digits.chars() {
+        let digit = c.to_digit(radix)? as u64;
+        for i in (0..bits_per_digit).rev() {
+            let bit = (digit >> i) & 1;
+            if leading >> 63 == 0 {
+                leading = (leading << 1) | bit;
+            } else {
+                dropped = dropped.saturating_add(1);
+                sticky = sticky || bit == 1;
+            }
+        }
+    }
+    if sticky {
+        leading |= 1;
+    }
+    // The conversion rounds to nearest, the sticky bit standing in for the
+    // dropped ones; scaling by a power of two is exact or overflows.
+    let mut value = leading as f64;
+    for _ in 0..dropped.min(1100) {
+        value *= 2.0;
+    }
+    Some(value)
+}
+
+/// Convert a string to a number the way JS `Number(string)` does,
+/// returning None where that would return NaN.
+pub fn str_to_number<S: AsRef<str>>(string: S) -> Option<f64> {
+    let s = string.as_ref().trim_matches(is_js_whitespace);
+    if s == "" {
+        return Some(0.0);
+    }
+    let radix = match s.as_bytes() {
+        [b'0', b'x', ..] | [b'0', b'X', ..] => Some(16),
+        [b'0', b'o', ..] | [b'0', b'O', ..] => Some(8),
+        [b'0', b'b', ..] | [b'0', b'B', ..] => Some(2),
+        _ => None,
+    };
+    if let Some(radix) = radix {
+        return radix_digits_to_number(&s[2..], radix);
+    }
+    match parse_decimal_prefix(s) {
+        Some((value, len)) if len == s.len() => Some(value),
+        _ => None,
     }
 }
 
